@@ -249,7 +249,7 @@ func RunCheck(opt Options) int {
 			continue
 		}
 		fc := cs.Funcs[u.Full]
-		need := opt.Tier == "thorough" || (fc != nil && len(fc.AbstractLoops) > 0)
+		need := opt.Tier == "thorough" || (fc != nil && len(fc.AbstractLoops) > 0) || u.Error != "" || len(u.Undecided) > 0
 		if !need || ranTests[u.Pkg+"/"+u.Bounded] {
 			continue
 		}
